@@ -72,6 +72,7 @@ typedef struct {
   uint32 ip;
 
   unsigned short recv_len;
+  uint8 recv_gap;  // bytes of this connection were dropped
   uint8 recvbuf[MQTT_RECVBUF_SIZE];
   uint8 sendbuf[MQTT_SENDBUF_SIZE] __attribute__((aligned(4)));
 
@@ -423,6 +424,12 @@ void ICACHE_FLASH_ATTR supla_esp_mqtt_conn_recv_cb(void *arg, char *pdata,
   // new bytes at recv_buffer.curr, so the segment is stored behind it. A
   // segment that does not fit at once is handed over in parts: every
   // mqtt_sync() consumes the complete packets and makes room again.
+  if (supla_esp_mqtt_vars->recv_gap) {
+    // Bytes of this connection were dropped before. What follows them cannot
+    // be parsed any more; the client is about to reconnect.
+    return;
+  }
+
   while (len > 0) {
     size_t kept = supla_esp_mqtt_vars->client.recv_buffer.curr -
                   supla_esp_mqtt_vars->client.recv_buffer.mem_start;
@@ -435,6 +442,7 @@ void ICACHE_FLASH_ATTR supla_esp_mqtt_conn_recv_cb(void *arg, char *pdata,
       // the stream would be lost, so the connection has to be set up again.
       supla_log(LOG_DEBUG, "MQTT recv buffer is too small! %i", len);
       supla_esp_mqtt_vars->recv_len = 0;
+      supla_esp_mqtt_vars->recv_gap = 1;
       supla_esp_mqtt_vars->client.error = MQTT_ERROR_RECV_BUFFER_TOO_SMALL;
       return;
     }
@@ -448,6 +456,9 @@ void ICACHE_FLASH_ATTR supla_esp_mqtt_conn_recv_cb(void *arg, char *pdata,
 
     if (supla_esp_mqtt_vars->client.error != MQTT_OK) {
       // what is left of this segment belongs to a connection that is given up
+      if (len > 0) {
+        supla_esp_mqtt_vars->recv_gap = 1;
+      }
       return;
     }
   }
@@ -497,6 +508,7 @@ void ICACHE_FLASH_ATTR supla_esp_mqtt_espconn_diconnect(void) {
   supla_esp_mqtt_set_status(CONN_STATUS_DISCONNECTED);
   memset(&supla_esp_mqtt_vars->esp_conn, 0, sizeof(struct espconn));
   supla_esp_mqtt_vars->recv_len = 0;
+  supla_esp_mqtt_vars->recv_gap = 0;
 }
 
 void ICACHE_FLASH_ATTR supla_esp_mqtt_conn_on_connect(void *arg) {
